@@ -16,7 +16,7 @@ import (
 // Object statuses and proposals are *observed* through the contracts' own queries after every
 // block; the oracles below are written from the statements, not from the FSM tables.
 
-var mustRefuse = map[string]bool{"frozen": true, "forbidden": true, "pause": true, "registering": true, "unavailable": true}
+var mustRefuse = map[string]bool{"frozen": true, "forbidden": true, "pause": true, "registering": true, "unavailable": true, "<none>": true}
 
 type objView struct {
 	Status string `json:"status"`
@@ -88,7 +88,12 @@ func applyGov(s *scn, st CStep) {
 			method = "Freeze"
 		}
 		target := ""
-		if st.Obj == "service" {
+		if st.Obj == "service" && st.Act == "register" {
+			sv := c.services[st.B%len(c.services)]
+			target = c.id + ":" + sv.id
+			tx = s.b.bvm(k, constant.ServiceMgrContractAddr, "RegisterService", pb.String(c.id), pb.String(sv.id), pb.String("nm-"+c.id+sv.id), pb.String("CallContract"),
+				pb.String("intro"), pb.Uint64(1), pb.String(""), pb.String("details"), pb.String("reason"))
+		} else if st.Obj == "service" {
 			sv := c.services[st.B%len(c.services)]
 			target = c.id + ":" + sv.id
 			tx = s.b.bvm(k, constant.ServiceMgrContractAddr, method+"Service", pb.String(target), pb.String("reason"))
